@@ -68,7 +68,15 @@ static void snapshot(std::string& o, FSM::Instance& fsm) {
 	auto idx1 = [](hfsm2::Long v) -> long { return v == hfsm2::INVALID_LONG ? 0 : (v < 100000 ? (long) v + 1 : 100000); };
 	o += ",\"tb\":"; jarr(o, RC, [&](int r) { o += '['; jint(o, idx1(pd.taskBounds[r].first)); o += ','; jint(o, idx1(pd.taskBounds[r].last)); o += ']'; });
 	o += ",\"tl\":"; jarr(o, (int) TC, [&](int i) { o += '['; jint(o, idx1(pd.taskLinks[i].prev)); o += ','; jint(o, idx1(pd.taskLinks[i].next)); o += ']'; });
+	// slot contents: only slots that some plan reaches are read (TaskListT::operator[] verifies the pool's structure in
+	// assertion builds, which is not meant to hold for a cleared, empty pool)
+	bool reached[TC > 0 ? TC : 1] = {};
+	for (int r = 0; r < RC; ++r) {
+		long steps = 0;
+		for (hfsm2::Long i = pd.taskBounds[r].first; i < TC && steps <= TC; i = pd.taskLinks[i].next, ++steps) reached[i] = true;
+	}
 	o += ",\"ts\":"; jarr(o, (int) TC, [&](int i) {
+		if (!reached[i]) { o += "[0,0,\"none\",0]"; return; }
 		const auto& t = pd.tasks[(hfsm2::Long) i];
 		if ((unsigned) t.type >= (unsigned) hfsm2::TransitionType::COUNT || t.origin >= N || t.destination >= N) { o += "[0,0,\"none\",0]"; return; }
 		jtask(o, t); });
